@@ -650,13 +650,144 @@ func (e *Enc) mapHeapNames(mi mapInfo) []heapName {
 
 // havocElems: all cells of the backing array `base` get arbitrary values; other arrays keep theirs.
 func (e *Enc) havocElems(base Term, elem types.Type) {
-	fams := e.elemFams(elem)
-	for _, f := range fams {
+	for _, cp := range e.elemPaths(elem) {
+		f := cp.fam
 		old := e.cur.get(f.name, f.sort)
 		nw := e.freshConst(f.name+"@hv", f.sort)
 		e.cur.set(f.name, nw)
+		if len(cp.steps) > 0 {
+			// cells nested inside the elements (array or struct fields): the whole family is forgotten
+			continue
+		}
 		e.assume(mk(SBool, "(forall ((r Int)) (! (=> (not (= r (eref %s (eref.idx r)))) (= (select %s r) (select %s r))) :pattern ((select %s r))))", base.S, nw.S, old.S, nw.S), "frame of element havoc")
 	}
+}
+
+// ---------------------------------------------------------------------------
+// cell paths: where the scalar leaves of an element of type T live, relative to the element's reference.
+
+type pathStep struct {
+	fref string // field-instance step (name of the fref function) when non-empty
+	n    int64  // otherwise an array-index step over [0, n)
+}
+
+type cellPath struct {
+	fam   heapName
+	steps []pathStep
+}
+
+// elemPaths enumerates every heap family that stores part of a value of type elem located at a reference x,
+// with the address steps leading from x to the cell (none for scalars, slices and plain struct fields).
+func (e *Enc) elemPaths(elem types.Type) []cellPath {
+	var out []cellPath
+	var walk func(t types.Type, steps []pathStep)
+	leaf := func(fam string, t types.Type, steps []pathStep) {
+		st := append([]pathStep{}, steps...)
+		if shapeKindOf(t) == kSlice {
+			for _, sfx := range []string{"#base", "#off", "#len", "#cap"} {
+				out = append(out, cellPath{heapName{fam + sfx, arrSort(SInt, SInt)}, st})
+			}
+			return
+		}
+		out = append(out, cellPath{heapName{fam, arrSort(SInt, scalarSort(t))}, st})
+	}
+	walk = func(t types.Type, steps []pathStep) {
+		if !isOpaque(t) {
+			switch u := t.Underlying().(type) {
+			case *types.Struct:
+				for i := 0; i < u.NumFields(); i++ {
+					f := u.Field(i)
+					l := e.fieldLoc(intLit(0), t, i)
+					if l.Kind == locInst {
+						walk(f.Type(), append(append([]pathStep{}, steps...), pathStep{fref: e.frefName(t, f.Name())}))
+					} else {
+						leaf(fieldFam(t, f.Name()), f.Type(), steps)
+					}
+				}
+				return
+			case *types.Array:
+				walk(u.Elem(), append(append([]pathStep{}, steps...), pathStep{n: u.Len()}))
+				return
+			}
+		}
+		leaf(cellFam(t), t, steps)
+	}
+	walk(elem, nil)
+	return out
+}
+
+// pathAddr applies the steps to an element reference; js are the index terms of the index steps in order.
+func pathAddr(x string, steps []pathStep, js []string) string {
+	a := x
+	k := 0
+	for _, st := range steps {
+		if st.fref != "" {
+			a = fmt.Sprintf("(%s %s)", smtSym(st.fref), a)
+		} else {
+			a = fmt.Sprintf("(eref %s %s)", a, js[k])
+			k++
+		}
+	}
+	return a
+}
+
+// pathUpdateAxiom: nw equals old except that the cells (along cp) of the elements dLo <= i < dHi of the
+// backing array dBase hold the corresponding cells of the source elements srcRef(i) (or the value srcVal(i)).
+func (e *Enc) pathUpdateAxiom(nw, old Term, cp cellPath, dBase, dLo, dHi Term, srcRef func(i string) string, srcVal func(i string) string) Term {
+	cur := "r"
+	var conds []string
+	var jsRev []string
+	for k := len(cp.steps) - 1; k >= 0; k-- {
+		st := cp.steps[k]
+		if st.fref == "" {
+			conds = append(conds, fmt.Sprintf("(= %s (eref (eref.base %s) (eref.idx %s)))", cur, cur, cur),
+				fmt.Sprintf("(<= 0 (eref.idx %s))", cur), fmt.Sprintf("(< (eref.idx %s) %d)", cur, st.n))
+			jsRev = append(jsRev, fmt.Sprintf("(eref.idx %s)", cur))
+			cur = fmt.Sprintf("(eref.base %s)", cur)
+		} else {
+			inv := smtSym(st.fref + ".inv")
+			conds = append(conds, fmt.Sprintf("(= %s (%s (%s %s)))", cur, smtSym(st.fref), inv, cur))
+			cur = fmt.Sprintf("(%s %s)", inv, cur)
+		}
+	}
+	var js []string
+	for i := len(jsRev) - 1; i >= 0; i-- {
+		js = append(js, jsRev[i])
+	}
+	x := cur
+	i := fmt.Sprintf("(eref.idx %s)", x)
+	conds = append(conds, fmt.Sprintf("(= (eref.base %s) %s)", x, dBase.S), fmt.Sprintf("(= %s (eref %s %s))", x, dBase.S, i),
+		fmt.Sprintf("(<= %s %s)", dLo.S, i), fmt.Sprintf("(< %s %s)", i, dHi.S))
+	var val string
+	if srcVal != nil {
+		val = srcVal(i)
+	} else {
+		val = fmt.Sprintf("(select %s %s)", old.S, pathAddr(srcRef(i), cp.steps, js))
+	}
+	return mk(SBool, "(forall ((r Int)) (! (= (select %s r) (ite (and %s) %s (select %s r))) :pattern ((select %s r))))",
+		nw.S, strings.Join(conds, " "), val, old.S, nw.S)
+}
+
+// pathCopyFact: for 0 <= qi < n the cells (along cp) of element dst(qi) equal those of element src(qi), in heap hm.
+func (e *Enc) pathCopyFact(hm Term, cp cellPath, n Term, dst, src func(qi Term) Term) Term {
+	vars := []string{"(qi! Int)"}
+	conds := []string{"(<= 0 qi!)", fmt.Sprintf("(< qi! %s)", n.S)}
+	var js []string
+	k := 0
+	for _, st := range cp.steps {
+		if st.fref == "" {
+			v := fmt.Sprintf("qj%d!", k)
+			k++
+			vars = append(vars, "("+v+" Int)")
+			conds = append(conds, fmt.Sprintf("(<= 0 %s)", v), fmt.Sprintf("(< %s %d)", v, st.n))
+			js = append(js, v)
+		}
+	}
+	qi := Term{"qi!", SInt}
+	da := pathAddr(dst(qi).S, cp.steps, js)
+	sa := pathAddr(src(qi).S, cp.steps, js)
+	return mk(SBool, "(forall (%s) (! (=> (and %s) (= (select %s %s) (select %s %s))) :pattern ((select %s %s)) :pattern ((select %s %s))))",
+		strings.Join(vars, " "), strings.Join(conds, " "), hm.S, da, hm.S, sa, hm.S, da, hm.S, sa)
 }
 
 func (e *Enc) elemFams(elem types.Type) []heapName {
